@@ -24,7 +24,9 @@ META = {
     "text": "All trans blocks whose singular+plural bodies have <= 2 (quick) / <= 3 (thorough) pieces from {a, %, %s, "
     "%(x)s, {, }}, newline+indent, <b>, {{ x }}, {{ n }}} x 9 tag headers (none, x=e, n=count, both orders, trimmed, "
     "notrimmed, trimmed n=count, n=cnt()) x pluralize {none, implicit, explicit n} x context string {none, \"ctx\"}, "
-    "plus a {{ num }} family and direct gettext/_/ngettext/pgettext/npgettext calls, each under old/new style x "
+    "plus a {{ num }} family, a whitespace family (bodies starting with a newline / ending with an indented line, "
+    "trim_blocks x lstrip_blocks set both on the rendering environment and in the babel_extract options) and direct "
+    "gettext/_/ngettext/pgettext/npgettext calls, each under old/new style x "
     "autoescape off/on x policy ext.i18n.trimmed off/on, rendered for counts 0/1/2 with values containing < & %. "
     "Rendered text must equal the block text with variables substituted (literal % stays one %, singular iff "
     "count == 1, trimming when trimmed/policy, values escaped under autoescape, block text never escaped); the "
@@ -311,6 +313,10 @@ def cfg_name(cfg):
     return ("newstyle" if cfg[0] else "oldstyle") + ("+autoescape" if cfg[1] else "") + ("+policy" if cfg[2] else "")
 
 
+def ws_name(ws):
+    return ("+trim_blocks" if ws[0] else "") + ("+lstrip_blocks" if ws[1] else "")
+
+
 def features(case: Case):
     text = "".join(case.pieces[i][0] for i in case.sing + (case.plur or ()) if case.pieces[i][1] == "t")
     f = []
@@ -413,7 +419,7 @@ def report(p, case, cfg, fails):
         sig, mc, mcfg, mmsg = _MIN_CACHE[ck]
         src = mc.source()
         p.violation(sig, {
-            "msg": "%s %r: %s" % (cfg_name(mcfg), src, mmsg),
+            "msg": "%s%s %r: %s" % (cfg_name(mcfg), ws_name(mc.ws), src, mmsg),
             "source": src, "config": cfg_name(mcfg), "found_with": {"source": case.source(), "config": cfg_name(cfg)},
             "script": "from checks import c33\nc33.replay_source(%r, %r, %r)\n" % (mc.key(), mcfg, None),
         })
@@ -539,6 +545,39 @@ def shard_trans(arg):
     return p
 
 
+def ws_bodies(mid_len):
+    """lead in {'', newline} + <= mid_len middle pieces of {a, %, {{ x }}} + trail in {'', newline+indent}."""
+    for lead in ((), (0,)):
+        for k in range(mid_len + 1):
+            for mid in itertools.product((1, 2, 3), repeat=k):
+                for trail in ((), (4,)):
+                    yield lead + mid + trail
+
+
+def shard_ws(arg):
+    """whitespace family: trim_blocks x lstrip_blocks in the rendering environment and in the babel options."""
+    ctx, hkey, plural, mid_len, ws = arg
+    p = core.Part()
+    plurs = list(ws_bodies(min(mid_len, 1))) if plural != "none" else [None]
+    for s in ws_bodies(mid_len):
+        for pl in plurs:
+            case = Case(ctx, hkey, plural, s, pl, "ws", ws)
+            p.count("ws_templates")
+            for cfg in CONFIGS:
+                p.evals += 1
+                fails, tags = check_case(case, cfg, extract=not cfg[1])
+                if fails:
+                    report(p, case, cfg, fails)
+                if "syntax-error" in tags:
+                    p.count("illegal_blocks_rejected")
+                else:
+                    p.count("renders", len(COUNTS))
+                    p.sig((cfg_name(cfg), ws, tuple(features(case)), tuple(tags)))
+            p.sample({"source": case.source(), "trim_blocks": ws[0], "lstrip_blocks": ws[1],
+                      "expected_count_1_oldstyle": model(case, (False, False, False), 1)[1:2]}, cap=1)
+    return p
+
+
 def shard_calls(arg):
     func, total = arg
     p = core.Part()
@@ -585,6 +624,10 @@ def run(ctx: core.Ctx):
         "under autoescape (trans blocks are template text and are not)",
         "bodies whose adjacent pieces would spell a delimiter ({{, {%, {#) are skipped (counted)",
         "extraction is compared as a set of (function, string arguments) ignoring line numbers and comments",
+        "whitespace family: trim_blocks/lstrip_blocks are set identically on the rendering Environment and in the "
+        "babel_extract options ('true'/'false' strings); the model removes the first newline after a block tag "
+        "(trim_blocks) and the spaces from the beginning of a line to the next block tag (lstrip_blocks) as "
+        "documented under Whitespace Control",
     ]
     shards = []
     for c in (False, True):
@@ -594,12 +637,19 @@ def run(ctx: core.Ctx):
         for hk in NUM_HEADERS:
             for pl in PLURAL:
                 shards.append((shard_trans, (c, hk, pl, total + 1, True)))
+    for ws in WS_OPTS:
+        for hk in ("none", "n", "trimmed", "x"):
+            for pl in ("none", "implicit"):
+                for c in ((False,) if ctx.quick else (False, True)):
+                    shards.append((shard_ws, (c, hk, pl, 1 if ctx.quick else 2, ws)))
     for f in CALL_FUNCS:
         shards.append((shard_calls, (f, 3 if ctx.quick else 4)))
     ctx.pmap(_dispatch, shards)
     ctx.cov["bounds"] = {"tier": ctx.tier, "pieces_per_block": total, "alphabet": [s for s, _ in PIECES],
                          "headers": list(HEADERS), "pluralize": list(PLURAL), "configurations": len(CONFIGS),
-                         "counts": list(COUNTS), "call_message_pieces": 3 if ctx.quick else 4}
+                         "counts": list(COUNTS), "whitespace_family": {"trim_blocks x lstrip_blocks": 4,
+                                                                        "middle_pieces": 1 if ctx.quick else 2,
+                                                                        "headers": ["none", "n", "trimmed", "x"]}, "call_message_pieces": 3 if ctx.quick else 4}
 
 
 def _dispatch(arg):
